@@ -25,7 +25,10 @@ THEOREMS = ['C02_refsem_deterministic', 'C02_fuel_monotone', 'C02_limit_monotone
             'C02_ne_is_not_eq', 'C02_assert_is_if_error', 'C02_assert_true_transparent', 'C02_if_true', 'C02_if_false',
             'C02_error_message_string', 'C02_error_message', 'C02_assert_message', 'C02_assert_no_message',
             'C02_defaults_see_all_params', 'C02_named_positional_disjoint', 'C02_nonvacuous',
-            'C02_core_no_static_error', 'C02_static_ok_closed', 'C02_refeval_no_static_error', 'C02_static_nonvacuous']
+            'C02_core_no_static_error', 'C02_static_ok_closed', 'C02_refeval_no_static_error', 'C02_static_nonvacuous',
+            'C02_plus_assoc', 'C02_plus_empty_l', 'C02_plus_empty_r', 'C02_override_wins', 'C02_inherited_field',
+            'C02_self_field_is_top_lookup', 'C02_self_is_final', 'C02_rw_array_proj', 'C02_rw_identity', 'C02_rw_local_name',
+            'C02_laws_nonvacuous']
 ALLOWED_AXIOMS = set()
 TRANSLATORS = []
 
